@@ -22,7 +22,7 @@ if ! git -C "$WT" apply "$D/patch.diff"; then
   echo "$name patch-does-not-apply"; git -C /repo worktree remove --force "$WT"; git -C /repo worktree prune; exit 2
 fi
 for p in $props; do
-  res=$(VERIF_REPO_SRC="$WT/src" "$HERE/check" "$p" --tier "${TIER:-quick}" --seed "${SEED:-1}" --no-evidence 2>&1)
+  res=$(VERIF_REPO_SRC="$WT/src" "$HERE/check" "$p" --tier "${TIER:-quick}" --seed "${SEED:-1}" --no-evidence ${BUDGET:+--budget $BUDGET} 2>&1)
   rc=$?
   n=$(echo "$res" | grep -c "^VIOLATION")
   cls=$(echo "$res" | grep "class=" | head -1 | sed 's/^ *//' | cut -c1-200)
